@@ -1,22 +1,26 @@
 #!/bin/bash
-# Regenerate /verif/coq/gen/Src.v from the Rust source with the rs2coq translator.
+# Regenerate the Gallina translation of the Rust source with the rs2coq translator:
+#   gen/Src.v  gen/SrcBigint.v  gen/SrcSlow.v  gen/SrcParse.v
 #
-#   tools/rs2coq/run.sh                 translate $RS2COQ_SRC (default /repo/src) into
-#                                       $RS2COQ_OUT (default /verif/coq/gen/Src.v)
+#   tools/rs2coq/run.sh [OUT_DIR]       translate $RS2COQ_SRC (default /repo/src) into OUT_DIR
+#                                       (default: $RS2COQ_OUT_DIR, else /verif/coq/gen)
 # Environment:
-#   RS2COQ_SRC   directory holding mask.rs, num.rs, lemire.rs, ...   (default /repo/src)
-#   RS2COQ_OUT   output file                                        (default /verif/coq/gen/Src.v)
-# The output file is only rewritten when its content changes (so `make` does not rebuild
+#   RS2COQ_SRC      directory holding mask.rs, num.rs, lemire.rs, bigint.rs, ...  (default /repo/src)
+#   RS2COQ_OUT_DIR  output directory                                          (default /verif/coq/gen)
+#   RS2COQ_OUT      old interface: ONLY Src.v is generated, into this file (the one-argument CLI
+#                   of the binary; used by selftest.sh)
+#   RS2COQ_TARGET   cargo target directory                     (default /verif/.cache/rs2coq-target)
+# Each output file is only rewritten when its content changes (so `make` does not rebuild
 # needlessly).  A function that cannot be translated (construct outside the supported subset) is
 # OMITTED from the output, together with its callers; the line `rs2coq: omitted: <names|none>` is
 # echoed, and the proofs that mention an omitted definition stop compiling (fail closed per
 # theorem).  Exit status: 0 ok (possibly with omissions); 1 build failure; 2 a source file is
-# missing / unparsable or a declaration the translator relies on changed (output left untouched).
+# missing / unparsable or a declaration the translator relies on changed (outputs left untouched).
 set -u
 HERE="$(cd "$(dirname "$0")" && pwd)"
 SRC="${RS2COQ_SRC:-/repo/src}"
-OUT="${RS2COQ_OUT:-/verif/coq/gen/Src.v}"
-export CARGO_TARGET_DIR=/verif/.cache/rs2coq-target
+OUT_DIR="${1:-${RS2COQ_OUT_DIR:-/verif/coq/gen}}"
+export CARGO_TARGET_DIR="${RS2COQ_TARGET:-/verif/.cache/rs2coq-target}"
 export CARGO_NET_OFFLINE=true
 mkdir -p "$CARGO_TARGET_DIR"
 if ! ( cd "$HERE" && timeout 900 cargo build --offline --release -q ) > "$CARGO_TARGET_DIR/build.log" 2>&1; then
@@ -24,22 +28,53 @@ if ! ( cd "$HERE" && timeout 900 cargo build --offline --release -q ) > "$CARGO_
   echo "rs2coq/run.sh: building the translator failed" >&2
   exit 1
 fi
-TMP="$(mktemp "${TMPDIR:-/tmp}/Src.v.XXXXXX")"
-trap 'rm -f "$TMP"' EXIT
-ERR="$(mktemp "${TMPDIR:-/tmp}/Src.err.XXXXXX")"
-trap 'rm -f "$TMP" "$ERR"' EXIT
-timeout 120 "$CARGO_TARGET_DIR/release/rs2coq" "$SRC" > "$TMP" 2> "$ERR"
+BIN="$CARGO_TARGET_DIR/release/rs2coq"
+TMP="$(mktemp -d "${TMPDIR:-/tmp}/rs2coq.XXXXXX")"
+trap 'rm -rf "$TMP"' EXIT
+
+# install $1 as $2 unless $2 already has that content
+install_if_changed() {
+  if [ -f "$2" ] && cmp -s "$1" "$2"; then
+    echo "rs2coq/run.sh: $2 is up to date"
+  else
+    mkdir -p "$(dirname "$2")"
+    cp "$1" "$2.tmp.$$" && mv -f "$2.tmp.$$" "$2"
+    echo "rs2coq/run.sh: wrote $2"
+  fi
+}
+
+report() {  # $1 = stderr file of the translator
+  grep -v '^rs2coq: omitted:' "$1" >&2
+  grep '^rs2coq: omitted:' "$1"
+}
+
+if [ -n "${RS2COQ_OUT:-}" ] && [ $# -eq 0 ]; then
+  # old interface: Src.v only
+  timeout 120 "$BIN" "$SRC" > "$TMP/Src.v" 2> "$TMP/err"
+  rc=$?
+  report "$TMP/err"
+  if [ $rc -ne 0 ]; then
+    echo "rs2coq/run.sh: translation of $SRC FAILED (exit $rc); $RS2COQ_OUT left untouched" >&2
+    exit $rc
+  fi
+  install_if_changed "$TMP/Src.v" "$RS2COQ_OUT"
+  exit 0
+fi
+
+mkdir -p "$TMP/out"
+timeout 120 "$BIN" "$SRC" "$TMP/out" 2> "$TMP/err"
 rc=$?
-grep -v '^rs2coq: omitted:' "$ERR" >&2
-grep '^rs2coq: omitted:' "$ERR"
+report "$TMP/err"
 if [ $rc -ne 0 ]; then
-  echo "rs2coq/run.sh: translation of $SRC FAILED (exit $rc); $OUT left untouched" >&2
+  echo "rs2coq/run.sh: translation of $SRC FAILED (exit $rc); $OUT_DIR left untouched" >&2
   exit $rc
 fi
-if [ -f "$OUT" ] && cmp -s "$TMP" "$OUT"; then
-  echo "rs2coq/run.sh: $OUT is up to date"
-else
-  mkdir -p "$(dirname "$OUT")"
-  cp "$TMP" "$OUT.tmp.$$" && mv -f "$OUT.tmp.$$" "$OUT"
-  echo "rs2coq/run.sh: wrote $OUT"
-fi
+for f in Src.v SrcBigint.v SrcSlow.v SrcParse.v; do
+  if [ ! -s "$TMP/out/$f" ]; then
+    echo "rs2coq/run.sh: the translator did not produce $f; $OUT_DIR left untouched" >&2
+    exit 2
+  fi
+done
+for f in Src.v SrcBigint.v SrcSlow.v SrcParse.v; do
+  install_if_changed "$TMP/out/$f" "$OUT_DIR/$f"
+done
